@@ -212,12 +212,31 @@ async fn new_h1(
     }
 }
 
-async fn reference(op: &ConnOp, pos: usize) -> Vec<String> {
+async fn reference(op: &ConnOp, pos: usize) -> Result<Vec<String>, String> {
     let ctx = Rc::new(Ctx::default());
     let svc = new_h1(ctx.clone()).await;
-    match run_conn(&svc, &ctx, op, pos).await {
-        Ok((d, _)) => d,
-        Err(e) => mc_core::machinery(format!("reference connection failed: {e}")),
+    run_conn(&svc, &ctx, op, pos).await.map(|(d, _)| d)
+}
+
+/// A connection that fails on a FRESH instance (only the pipelined shape reuses an object there).
+fn fresh_failure(op: &ConnOp, ai: usize, e: &str) -> Violation {
+    let (clause, signature, text) = match e.strip_prefix("panic:") {
+        Some(rest) => {
+            let (sig, text) = rest.split_once('|').unwrap_or((rest, rest));
+            ("panic".to_string(), format!("conn:panic:{sig}"), format!("panicked: {text}"))
+        }
+        None => ("isolation-conn".to_string(), "conn:connection-failed".to_string(), e.to_string()),
+    };
+    Violation {
+        property: "C11".into(),
+        clause,
+        signature,
+        what: format!(
+            "connection {} as the first connection of a fresh instance fails (its second, pipelined request is served by the object of the first) — {text}",
+            op_name(op)
+        ),
+        replay: json!({"conn_history": [ai]}),
+        weight: 1 << 40,
     }
 }
 
@@ -337,6 +356,7 @@ pub fn run(tier: &str) -> ConnResult {
     let rt = actix_rt::Runtime::new().expect("runtime");
     rt.block_on(async {
         let mut refs = HashMap::new();
+        let mut res = ConnResult::default();
         for (ai, op) in alpha.iter().enumerate() {
             for pos in 0..len {
                 let a = reference(op, pos).await;
@@ -345,10 +365,19 @@ pub fn run(tier: &str) -> ConnResult {
                     eprintln!("MACHINERY: conn reference not deterministic for {}", op_name(op));
                     std::process::exit(2);
                 }
-                refs.insert((ai, pos), a);
+                match a {
+                    Ok(a) => {
+                        refs.insert((ai, pos), a);
+                    }
+                    Err(e) => {
+                        res.violations.push(fresh_failure(op, ai, &e));
+                        res.rule = "connection sub-check stopped: a connection failed on a fresh instance".into();
+                        res.samples = vec![json!({"conn_history": [op_name(op)]})];
+                        return res;
+                    }
+                }
             }
         }
-        let mut res = ConnResult::default();
         let mut nontrivial = HashSet::new();
         let total = alpha.len().pow(len as u32);
         for idx in 0..total {
@@ -381,7 +410,19 @@ pub fn replay(r: &Value) -> i32 {
         let mut refs = HashMap::new();
         for (ai, op) in alpha.iter().enumerate() {
             for pos in 0..ops.len() {
-                refs.insert((ai, pos), reference(op, pos).await);
+                match reference(op, pos).await {
+                    Ok(r) => {
+                        refs.insert((ai, pos), r);
+                    }
+                    Err(e) => {
+                        if ops.contains(op) {
+                            let v = fresh_failure(op, ai, &e);
+                            println!("VIOLATION property=C11 clause={} signature={}", v.clause, v.signature);
+                            println!("  {}", v.what);
+                            return 1;
+                        }
+                    }
+                }
             }
         }
         let mut res = ConnResult::default();
